@@ -170,7 +170,9 @@ func checkMerge(entries map[string]string, splits []*storedSplit, mode model.Con
 	case model.EnableCheckpoints:
 		prefix = ".checkpoints/"
 	}
-	isSide := func(p string) bool { return strings.HasPrefix(p, ".conflicts/") || strings.HasPrefix(p, ".checkpoints/") }
+	isSide := func(p string) bool {
+		return strings.HasPrefix(p, ".conflicts/") || strings.HasPrefix(p, ".checkpoints/")
+	}
 	winners := map[string]string{} // path -> winning hash ("" = exact tie between different contents: either)
 	for p, l := range vs {
 		best := l[0]
